@@ -16,7 +16,10 @@ import hashlib
 import math
 import sys
 
+import re
+
 RUNNABLE, BLOCKED, DONE = 0, 1, 2
+_ADDR = re.compile(r"0x[0-9a-fA-F]{6,}")
 
 _ACTIVE = None  # the Sched of the run in progress (one per process at a time)
 
@@ -304,7 +307,9 @@ class Sched(object):
 
     def digest(self):
         h = self._h.copy()
-        h.update(repr(self.log).encode("utf-8", "backslashreplace"))
+        # memory addresses can reach the history through messages built by the code under test
+        # (e.g. the repr of a built-in in an error reply): they are not part of the behaviour
+        h.update(_ADDR.sub("0x?", repr(self.log)).encode("utf-8", "backslashreplace"))
         h.update(repr(self.net_trace).encode())
         h.update(repr((self.now, self.step, self.nswitch)).encode())
         return h.hexdigest()
